@@ -190,6 +190,14 @@ async def _run_script(ctx, inv, ev, script):
                 return None
         elif op == 'sleep':
             await inv.sleep(_val(ctx, st[1]))
+        elif op == 'sleep_cleanup':
+            try:
+                await inv.sleep(_val(ctx, st[1]))
+            except asyncio.CancelledError:
+                # clean-up that takes time, only when the handler is cancelled
+                ctx.rec('CLEANUP', h=inv.id)
+                await asyncio.sleep(_val(ctx, st[2]))
+                raise
         elif op == 'disp':
             _, bus, cls, label = st[:4]
             lab = _label(ctx, inv, label)
